@@ -205,9 +205,18 @@ use crate::service::{BlockFilterRpc, ScriptStatus as RpcScriptStatus, ScriptType
 impl Env {
     /// token: 0 filters, 1 filter hashes, 2 check points.  `elapsed`: the 15 s re-ask window has passed.
     pub fn filter_tick(&mut self, sim: &mut Sim, token: u64, elapsed: bool) {
-        if elapsed {
-            *sim.client_mut().filter.last_ask_time.write().unwrap() = None;
-        }
+        // `elapsed` as the handler will see it: no request yet (None) counts as elapsed; otherwise the time stamp is
+        // refreshed so that a slow machine cannot turn "not elapsed" into "elapsed" behind the trace's back
+        let elapsed = {
+            let mut t = sim.client_mut().filter.last_ask_time.write().unwrap();
+            if elapsed || t.is_none() {
+                *t = None;
+                true
+            } else {
+                *t = Some(std::time::Instant::now());
+                false
+            }
+        };
         sim.step("FilterTick", json!({"token": token, "elapsed": elapsed}), |c| c.notify(Proto::Filter, token));
     }
 
